@@ -48,8 +48,8 @@ class JumpWriteHandler(AbstractWriteHandler):
         """Delegates to the handlers in .label_jump"""
         logger.debug("Handling a jump; (%s)...", self.start_vertex["op"])
         op: SsbLabelJump = self.start_vertex["op"]
-        # TODO: Writing this source map entry may be confusing, if no jump is written next (by the label handler)...
-        self.decompiler.source_map_add_opcode(op.offset)
+        # The source map entry is added if a jump statement is written for this operation (by the label handler).
+        self.decompiler.jump_will_be_written_by_label(op.offset)
         # Nothing to do, this is dealt with, when processing the label after this
         # either we print a jump there, or we just proceed.
         exits = self.start_vertex.out_edges()
